@@ -317,7 +317,7 @@ pub fn c15(args: &Args) {
     c15_trait(&mut report, args);
     report.exhaustive = !report.extra.contains_key("watchdog");
     let seed = args.seed;
-    let n = args.pick(20_000, 400_000);
+    let n = args.pick(200_000, 3_000_000);
     run_cases(&mut report, n, args.threads, Duration::from_secs(args.pick(60, 900)), |i| block_on_paused(c15_actor_case(seed, i)));
     report.floor("selections_judged", 100_000);
     report.floor("actor_selections_judged", 10_000);
@@ -695,7 +695,7 @@ pub fn c11(args: &Args) {
         "T tasks x M calls on one real datacake_node::Clock (the actor + flume channel + oneshot replies), mixing get_time and register_ts(remote) (10% of remotes beyond the allowed drift), random yields; runtimes: current-thread and multi-thread with 2/4/16 workers. Checked on the recorded history: all returned stamps pairwise distinct and carrying the node id, per task strictly increasing, every get_time that started after a register_ts(r) had returned (global happens-before token) is > r unless r was beyond the drift. Non-trivial: every round has >= 2 tasks; distinct = distinct orderings of the first 32 results by task.",
     );
     let seed = args.seed;
-    let rounds = args.pick(400, 20_000);
+    let rounds = args.pick(3_000, 60_000);
     let flavours: [(usize, &str); 4] = [(0, "current-thread"), (2, "multi-2"), (4, "multi-4"), (16, "multi-16")];
     let t0 = std::time::Instant::now();
     let budget = Duration::from_secs(args.pick(120, 1500));
